@@ -223,6 +223,10 @@ class Scheduler(object):
 
     def __init__(self, schedule, trace_root):
         self.order = list(schedule.get("order", []))
+        # who continues when the running thread blocks or finishes: the first runnable thread in ``order`` (default), or -
+        # "lifo" - the most recently PREEMPTED thread that can run (threads resume in the reverse order of their preemption)
+        self.resume = schedule.get("resume")
+        self.preempted = []
         self.preempt = sorted([list(p) for p in schedule.get("preempt", [])])
         self.workers = {}
         self.ctl = threading.Semaphore(0)
@@ -334,6 +338,11 @@ class Scheduler(object):
         return False
 
     def pick(self):
+        if self.resume == "lifo":
+            for w in reversed(self.preempted):
+                if self.runnable(w):
+                    self.preempted.remove(w)
+                    return w
         for name in self.order:
             w = self.workers.get(name)
             if w is not None and self.runnable(w):
@@ -368,6 +377,7 @@ class Scheduler(object):
                 t = self.workers.get(target)
                 if t is not None and t is not cur and self.runnable(t) and cur is not None and self.runnable(cur):
                     self.taken.append((self.step, cur.name, t.name, cur.where))
+                    self.preempted.append(cur)
                     cur = t
                 else:
                     self.vacuous.append([s, target])
